@@ -204,26 +204,29 @@ class SqliteStateStore(Generic[MODEL_T]):
 
     async def set_state(self, state: MODEL_T) -> None:
         """Replace or merge into the current state model."""
-        conn = self._connect()
-        try:
-            cursor = conn.cursor()
-            cursor.execute(
-                "SELECT state_json FROM workflow_state WHERE run_id = ?",
-                (self._run_id,),
-            )
-            row = cursor.fetchone()
+        # Under the same lock as edit_state(): an edit block that is suspended across
+        # this call must not overwrite it when it saves its copy.
+        async with self._lock:
+            conn = self._connect()
+            try:
+                cursor = conn.cursor()
+                cursor.execute(
+                    "SELECT state_json FROM workflow_state WHERE run_id = ?",
+                    (self._run_id,),
+                )
+                row = cursor.fetchone()
 
-            # A run without a row yet holds the defaults of the declared state type
-            current_state = (
-                self._create_default_state()
-                if row is None
-                else self._deserialize_state(row[0])
-            )
-            merged = merge_state(current_state, state)
-            self._save_state(merged, conn)  # type: ignore[arg-type]
-            conn.commit()
-        finally:
-            self._release(conn)
+                # A run without a row yet holds the defaults of the declared state type
+                current_state = (
+                    self._create_default_state()
+                    if row is None
+                    else self._deserialize_state(row[0])
+                )
+                merged = merge_state(current_state, state)
+                self._save_state(merged, conn)  # type: ignore[arg-type]
+                conn.commit()
+            finally:
+                self._release(conn)
 
     async def get(self, path: str, default: Any = ...) -> Any:
         """Get a nested value using dot-separated paths."""
